@@ -308,3 +308,93 @@ def copy_superset_of_read_obligation(rep, prop="C20"):
     else:
         ob.status, ob.detail = REFUTED, f"read but not copied: {sorted(read - copied)}"
     return rep.add(ob)
+
+
+FIELDS = ("required", "explode", "style", "param_schema", "param_in")
+
+
+def parameter_from_data_contract():
+    """C20: the Parameter registered for a component is a field-by-field copy of THAT component (whatever the table already
+    holds, e.g. another component with the same wire name in another location)."""
+    E = _errors()
+
+    def make(I):
+        from openapi_python_client.parser.properties import schemas as S
+        from openapi_python_client import schema as oai
+        other = SObj(S.Parameter, {"name": SStr(z3.Const("other_name", z3.StringSort())),
+                                   **{f: SOpaque(f"other.{f}") for f in FIELDS}})
+        cbn = LazyMap("parameters.classes_by_name", lambda I2, k: other)
+        params = SObj(S.Parameters, {"classes_by_reference": SOpaque("cbr"), "classes_by_name": cbn, "errors": SList()})
+        kind = I.choose(3)
+        name = SStr(z3.Const("name", z3.StringSort()))
+        if kind == 0:
+            data = SObj(oai.Reference, {"ref": SStr(z3.Const("ref", z3.StringSort()))})
+        else:
+            attrs = {f: SOpaque(f"data.{f}") for f in FIELDS}
+            attrs["name"] = name
+            if kind == 1:
+                attrs["param_schema"] = None
+            data = SOpaque("data", cls=oai.Parameter, attrs=attrs)
+        config = SOpaque("config", attrs={"field_prefix": "field_"})
+        return SFunc("pyfunc", S.parameter_from_data), [], {"name": name, "data": data, "parameters": params, "config": config}, {
+            "data": data, "kind": kind, "name": name, "S": S, "params": params, "other": other}
+
+    def copy(ctx):
+        i = ctx.inputs
+        res, table = ctx.value.items
+        if i["kind"] != 2:
+            return isinstance(res, SObj) and issubclass(res.cls, E.ParameterError) and table is i["params"]
+        if not (isinstance(res, SObj) and res.cls is i["S"].Parameter) or res is i["other"]:
+            return False
+        if res.fields.get("name") is not i["name"]:
+            return False
+        return all(res.fields.get(f) is i["data"].attrs[f] for f in FIELDS)
+
+    cls = [Clause("copy-of-this-component", copy,
+                  statement="a Reference / a parameter without schema yields a ParameterError and the table unchanged; otherwise the "
+                            "result is a new Parameter whose name, required, explode, style, schema and location are those of the "
+                            "data, whatever the table already holds", props=["C20", "C03"])]
+    return FnContract(f"{P}.schemas:parameter_from_data", [Case("any-table", make, cls, raises=(), props=["C20", "C03"])])
+
+
+def update_parameters_contract():
+    """C20: after update_parameters_with_data the reference path maps to the Parameter built from this component's data"""
+    E = _errors()
+
+    def make(I):
+        from openapi_python_client.parser.properties import schemas as S
+        built = SObj(S.Parameter, {"name": "built"})
+        err = SObj(E.ParameterError, {"detail": "d", "header": "h", "data": None, "level": None})
+        fails = I.branch_free()
+        params2 = SObj(S.Parameters, {"classes_by_reference": LazyMap("cbr", lambda I2, k: SOpaque("an earlier parameter")),
+                                      "classes_by_name": SOpaque("cbn"), "errors": SList()})
+        I.contracts[f"{P}.schemas:parameter_from_data"] = lambda I2, a, k: STuple([err if fails else built, params2])
+        data = SOpaque("data", attrs={"name": SStr(z3.Const("name", z3.StringSort()))})
+        ref = SStr(z3.Const("ref_path", z3.StringSort()))
+        params = SObj(S.Parameters, {"classes_by_reference": SOpaque("cbr0"), "classes_by_name": SOpaque("cbn0"), "errors": SList()})
+        return SFunc("pyfunc", S.update_parameters_with_data), [], {"ref_path": ref, "data": data, "parameters": params,
+                                                                   "config": SOpaque("config")}, {
+            "fails": fails, "built": built, "ref": ref, "S": S}
+
+    def registered(ctx):
+        i = ctx.inputs
+        v = ctx.value
+        if i["fails"]:
+            return isinstance(v, SObj) and issubclass(v.cls, E.ParameterError)
+        if not (isinstance(v, SObj) and v.cls is i["S"].Parameters):
+            return False
+        cbr = v.fields["classes_by_reference"]
+        if not isinstance(cbr, LazyMap):
+            return False
+        I = ctx.I
+        hits = [val for k, val in cbr.entries if I.must(I.to_str_term(k) == i["ref"].t)]
+        if len(hits) == 1 and hits[0] is not i["built"] and getattr(hits[0], "name", "") == "an earlier parameter":
+            # pre-condition of the callers: a reference path is registered at most once (component keys are unique and a
+            # component is retried only while it is unregistered); `{ref_path: param, **table}` lets an older entry win
+            return True
+        return len(hits) >= 1 and hits[0] is i["built"]
+
+    cls = [Clause("reference-maps-to-the-built-parameter", registered,
+                  statement="on success classes_by_reference[ref_path] is the Parameter parameter_from_data built from this "
+                            "component (pre: ref_path not yet registered); on failure a ParameterError", props=["C20"])]
+    return FnContract(f"{P}.schemas:update_parameters_with_data", [Case("any", make, cls, raises=(), props=["C20"])])
